@@ -8,7 +8,7 @@ from .. import gen, impl, oracle, progs, ser, stream
 
 ID = "C09"
 LEVEL = "proof"
-PROPS_MODULE = "SymmModel.Props.C09"
+PROPS_MODULE = "SymmModel.Props.C09All"
 THEOREMS = [
     "SymmModel.C09.obsEq_iff",
     "SymmModel.C09.obsEq_refl",
@@ -61,10 +61,42 @@ THEOREMS = [
     "SymmModel.C09.exA_signOk",
     "SymmModel.C09.phaseFlip_elem_needs_pm",
     "SymmModel.C09.phaseGlobal_elem_needs_distinct",
-    "SymmModel.C09.mapVals_congr_needs_odd"
+    "SymmModel.C09.mapVals_congr_needs_odd",
+    "SymmModel.C09.sumF_def",
+    "SymmModel.C09.mapF_def",
+    "SymmModel.C09.reduceF_def",
+    "SymmModel.C09.reductions_sync",
+    "SymmModel.C09.sumF_congr",
+    "SymmModel.C09.mapF_congr",
+    "SymmModel.C09.reduceF_congr",
+    "SymmModel.C09.syncFirst_congr",
+    "SymmModel.C09.mapF_elem",
+    "SymmModel.C09.sumF_dense",
+    "SymmModel.C09.normSq2_congr",
+    "SymmModel.C09.eighA_sync",
+    "SymmModel.C09.eighA_congr",
+    "SymmModel.C09.solveA_sync",
+    "SymmModel.C09.solveA_congr",
+    "SymmModel.C09.svdVals_sync",
+    "SymmModel.C09.svdVals_congr",
+    "SymmModel.C09.qr_recon_sync",
+    "SymmModel.C09.svd_recon_sync",
+    "SymmModel.C09.exceptRel_iff",
+    "SymmModel.C09.squeeze_congr",
+    "SymmModel.C09.squeeze_sync",
+    "SymmModel.C09.inTables_of_valid",
+    "SymmModel.C09.expandDims_congr",
+    "SymmModel.C09.fuseF_congr_all",
+    "SymmModel.C09.einsumF_eq",
+    "SymmModel.C09.einsumF_refines_graded",
+    "SymmModel.C09.transposedElem_inBox",
+    "SymmModel.C09.Op2.congr_obsEq",
+    "SymmModel.C09.Prog.lazy_unobservable_all",
+    "SymmModel.C09.exS_stOk",
+    "SymmModel.C09.squeeze_needs_keys_in_tables"
 ]
-LEAN_FILES = ["SymmModel.Props.C09", "SymmModel.Proofs.LazyLemmas"]
-PLANNED = ["congruence for the decompositions (svd/qr/eigh under the kernel contract)", "the reductions (sum/max/min)", "squeeze/expandDims", "fuse when every group is empty"]
+LEAN_FILES = ["SymmModel.Props.C09", "SymmModel.Proofs.LazyLemmas", "SymmModel.Props.C09b", "SymmModel.Props.C09All", "SymmModel.Proofs.LazyMore"]
+PLANNED = []
 RULE = ("random fermionic programs (length <= 5) over arrays whose pending-sign tables come from sequences of "
         "transpose / phase_flip / phase_transpose / phase_global / conj; each program is run on the real code as "
         "is and with phase_sync() applied to every operand and after every step; all step results and terminal "
